@@ -88,14 +88,18 @@ def run_spec(pid, spec):
     """Execute one run spec in a fresh world; returns the prop's result dict."""
     prop = load_prop(pid)
     c = ctx()
+    proc.OPTIMIZE = int((spec.get("cfg") or {}).get("optimize") or 0)
     w = c.world()
     try:
+        if proc.OPTIMIZE:
+            w.fired("python-OO")
         spare = (spec.get("cfg") or {}).get("fd_spare")
         if spare:
             w.limit_descriptors(spare)      # the simulated machine's open-file limit (marathon sessions)
         res = prop.execute(spec, w, c)
     finally:
         w.close()
+        proc.OPTIMIZE = 0
     res.setdefault("faults", {})
     res.setdefault("probes", {})
     for k, v in w.fault_counts.items():
@@ -125,6 +129,10 @@ def _worker_chunk(pid, base_seed, tier, indices, keep_specs):
             else:
                 seed = splitmix(base_seed, pid, idx)
                 spec = prop.gen(random.Random(seed), tier, c)
+                if (seed >> 9) % 25 == 0:
+                    # the deployment runs the tool as `python -OO` (asserts stripped, __debug__ false)
+                    spec.setdefault("cfg", {})
+                    spec["cfg"] = dict(spec["cfg"], optimize=2)
             res = run_spec(pid, spec)
             rec = {
                 "idx": idx, "seed": seed, "digest": res["digest"],
